@@ -16,7 +16,10 @@ def defs(bufsz, hbufsz=2):
 def grid_plan(mode):
     def plan(tier):
         if tier == "thorough":
-            return [dict(defs=defs(b), args=dict(mode=mode, bufsz=b, hbufsz=2), nshards=16) for b in (2, 1, 3, 4)]
+            L = [dict(defs=defs(b), args=dict(mode=mode, bufsz=b, hbufsz=2), nshards=16) for b in (2, 1, 3, 4)]
+            # the production constants themselves (16 MiB chunks, 32 MiB hash refills) on the real chunk-boundary lengths
+            L.append(dict(defs=[], args=dict(mode=mode, prod=1, bufsz="production", hbufsz="production"), nshards=12))
+            return L
         return [dict(defs=defs(2), args=dict(mode=mode, bufsz=2, hbufsz=2), nshards=16)]
     return plan
 
